@@ -585,3 +585,16 @@ Proof.
   unfold strings_Join. induction l as [|x l IH]; [reflexivity|]. destruct l as [|y l']; [simpl; now rewrite sapp_nil_r|].
   change (String.concat "" (x :: y :: l')) with (x ++ "" ++ String.concat "" (y :: l'))%string. rewrite IH. reflexivity.
 Qed.
+
+(* ---------------------------------------------------------------- counted loops *)
+Lemma zrange_nil : forall lo hi, (hi <= lo)%Z -> zrange lo hi = [].
+Proof. intros. unfold zrange. replace (Z.to_nat (hi - lo)) with 0%nat by lia. reflexivity. Qed.
+
+Lemma zrange_cons : forall lo hi, (lo < hi)%Z -> zrange lo hi = lo :: zrange (lo + 1) hi.
+Proof.
+  intros lo hi H. unfold zrange. replace (Z.to_nat (hi - lo)) with (S (Z.to_nat (hi - (lo + 1)))) by lia.
+  cbn [seq map]. f_equal; [lia|]. rewrite <- seq_shift, map_map. apply map_ext. intros; lia.
+Qed.
+
+Lemma strconv_Itoa_nat : forall n, strconv_Itoa (Z.of_nat n) = dec_nat n.
+Proof. intros. unfold strconv_Itoa. destruct (Z.ltb_spec (Z.of_nat n) 0); [lia|]. now rewrite Nat2Z.id. Qed.
